@@ -534,8 +534,38 @@ let m_readsched (f : Stdlib.String.t list) : Stdlib.String.t =
      Buffer.add_string out (Printf.sprintf "consumed=%d/%d\n" consumed total));
   Buffer.contents out
 
+(* emitirr: <start> <gecko> <end> <meta> <frames> <opts> <extras c:sz,..> <events c:hex,..> <junk hex>:
+   the irregular rendering the Coq definitions describe (emit_irr), the decidable membership test (wf_irreg2_b), and
+   the game the theorem read_irregular2 promises (that of the canonical replay) *)
+let m_emitirr (f : Stdlib.String.t list) : Stdlib.String.t =
+  let r = replay_of_fields f in
+  let o = Stdlib.List.nth f 5 in
+  let hash = Stdlib.String.contains o 'h' in
+  let pair s = match Stdlib.String.split_on_char ':' s with
+    | [a; b] -> (a, b) | _ -> failwith "bad pair" in
+  let extras = Stdlib.List.map (fun s -> let (a, b) = pair s in (n_of_int (int_of_string a), n_of_int (int_of_string b)))
+      (split_on ',' (Stdlib.List.nth f 6)) in
+  let evs = Stdlib.List.map (fun s -> let (a, b) = pair s in (n_of_int (int_of_string a), bytes_of_hex b))
+      (split_on ',' (Stdlib.List.nth f 7)) in
+  let junk = bytes_of_hex (Stdlib.List.nth f 8) in
+  let x = api_mk_irreg extras evs junk in
+  let out = Buffer.create 4096 in
+  let b = api_emit_irr r x in
+  Buffer.add_string out (Printf.sprintf "emit=%s\n" (hex_of_bytes b));
+  Buffer.add_string out (Printf.sprintf "wf=%d\n" (if api_wf r then 1 else 0));
+  Buffer.add_string out (Printf.sprintf "wf_irreg=%d\n" (if api_wf_irreg2_b r x then 1 else 0));
+  (match api_game_of false hash r with
+   | Some g ->
+     let n = Stdlib.List.length b in
+     Buffer.add_string out "OK\n";
+     Buffer.add_string out (Printf.sprintf "consumed=%d/%d\n" n n);
+     dump_game out { g with g_hashed = (if hash then Some (nat_of_int n) else None) }
+   | None -> Buffer.add_string out "NOGAME\n");
+  Buffer.contents out
+
 let dispatch (mode : Stdlib.String.t) (f : Stdlib.String.t list) : Stdlib.String.t =
   match mode with
+  | "emitirr" -> m_emitirr f
   | "rexact" -> m_rexact f
   | "readsched" -> m_readsched f
   | "read" -> m_read f
